@@ -18,6 +18,7 @@ func init() {
 			c.run("C19-R3", "MUST-PASS: errors and helper exit cancel the server side", c19R3)
 			c.run("C19-R6", "MUST-PASS: a finished session stops reading the helper, makes it exit, and the exit watcher always arms the cleanup", c19Stream)
 			c.run("C19-R7", "MUST-PASS/GUARD-DOM/WHO-WRITES: the bridge hands traffic on unchanged in both directions, from installed pipes, with the matching helper", c19Bridge)
+			c.run("C19-R8", "LAUNCH: the helper's exit watcher is started with go", c19Launch)
 			c.run("C19-R4", "SIBLING: decline condition and input gate agree", c19R4)
 			c.run("C19-R5", "WHO-WRITES: the 'cleaned' flag", c19R5)
 		})
